@@ -1,23 +1,31 @@
-(* C14 — compact transport of byte strings into Coq terms: the hexadecimal literal 0x01<bytes>
-   (a leading 01 sentinel keeps leading zero bytes) denotes the byte list.  Used only by the
-   correspondence files (a long list of small numerals is slow to parse). *)
-From Coq Require Import List NArith.
+(* C14 — compact transport of byte strings into Coq terms for the correspondence files: a byte
+   string is written as a list of primitive 63-bit integers holding 7 bytes each (big-endian);
+   [hb last l]: every element of l carries 7 bytes except the final one, which carries [last].
+   (A long list of small N numerals, a long hexadecimal N literal or a string literal are all
+   5-40 times slower to parse.)  Not used by any theorem. *)
+From Coq Require Import List NArith ZArith Uint63.
 Import ListNotations.
-Open Scope N_scope.
 
-Fixpoint hx_go (p : positive) (k : nat) (w cur : N) (acc : list N) : list N :=
-  match p with
-  | xH => acc
-  | xO q => match k with
-            | 7%nat => hx_go q 0%nat 1 0 (cur :: acc)
-            | _ => hx_go q (S k) (2 * w) cur acc end
-  | xI q => match k with
-            | 7%nat => hx_go q 0%nat 1 0 ((cur + w) :: acc)
-            | _ => hx_go q (S k) (2 * w) (cur + w) acc end
+Definition byte_at (x : int) (k : int) : N :=
+  Z.to_N (Uint63.to_Z (Uint63.land (Uint63.lsr x k) 255%uint63)).
+Definition unpack7 (x : int) : list N :=
+  [byte_at x 48%uint63; byte_at x 40%uint63; byte_at x 32%uint63; byte_at x 24%uint63;
+   byte_at x 16%uint63; byte_at x 8%uint63; byte_at x 0%uint63].
+Fixpoint hb (last : nat) (l : list int) : list N :=
+  match l with
+  | [] => []
+  | x :: r => match r with
+              | [] => skipn (7 - last) (unpack7 x)
+              | _ => unpack7 x ++ hb last r
+              end
   end.
-Definition hx (n : N) : list N := match n with N0 => [] | Npos p => hx_go p 0%nat 1 0 [] end.
 
-Example hx_ex : hx 0x0100ff10 = [0; 255; 16].
+Example hb_ex : hb 2 [0x00ff1020304050; 0x0607]%uint63 = [0; 255; 16; 32; 48; 64; 80; 6; 7]%N.
 Proof. vm_compute. reflexivity. Qed.
-Example hx_empty : hx 0x01 = [].
+Example hb_empty : hb 0 [] = [].
 Proof. reflexivity. Qed.
+
+(* 64-bit numbers as two 32-bit halves (decimal N literals above ~10 digits are slow to parse) *)
+Definition n64 (hi lo : int) : N := Z.to_N (Uint63.to_Z hi * 4294967296 + Uint63.to_Z lo).
+Example n64_ex : n64 0xffffffff 0xffffffff = (2 ^ 64 - 1)%N.
+Proof. vm_compute. reflexivity. Qed.
